@@ -317,6 +317,14 @@ func GenSProgram(t *rapid.T, cfg SGenCfg) SProgram {
 			}
 			p.Ops = append(p.Ops, SOp{K: "ctlrevert", N: int64(rapid.IntRange(0, 7).Draw(t, "which")), Fail: []int{perm[len(perm)-1]}},
 				SOp{K: "write", Off: off, Len: 8, Seed: rapid.IntRange(1, 250).Draw(t, "seed2")})
+		case "addlate":
+			perm := rapid.Permutation(seqInts(nodes)).Draw(t, "ab")
+			if nodes < 2 {
+				continue
+			}
+			// both candidates leave (if attached) and come back closed
+			p.Ops = append(p.Ops, SOp{K: "remove", Node: perm[0]}, SOp{K: "reconnect", Node: perm[0]}, SOp{K: "remove", Node: perm[1]}, SOp{K: "reconnect", Node: perm[1]},
+				SOp{K: "addlate", Node: perm[0], N: int64(perm[1])})
 		case "ctldelsnap":
 			p.Ops = append(p.Ops, SOp{K: "ctldelsnap", N: int64(rapid.IntRange(0, 7).Draw(t, "which"))})
 		case "addresize":
